@@ -59,6 +59,7 @@ func ResetCaches() {
 	L2.Trace = nil
 	L2.OnLocked = nil
 	L2.OnSet = nil
+	L2.OnUnlock = nil
 	DIO.Fault = nil
 	DIO.Trace = nil
 	DIO.OnWrite = nil
